@@ -68,7 +68,7 @@ META["C13"] = {
     "level": "exploration",
     "tiers": {
         "quick": {"shards": 3, "deadline_s": 200,
-                  "bounds": "all sequences of 0..3 results over (calls,E,S) in {2,10,1000}x{-3,-1e-3,0,1/2,1,1e6}x{1e-6,1e-3,0.1,1,10,1e3} plus the empty result (float: |E|<=1e3, S>=1e-3); all sequences of length 4 over the reduced alphabet {2,1000}x{-3,0,1,1e3}x{1e-3,1,1e3}+empty; every sequence also against its sorted permutation; 0..2 distributions of 2 bins; 3 types"},
+                  "bounds": "all sequences of 0..3 results over (calls,E,S) in {2,10,1000}x{-3,-1e-3,0,1/2,1,1e6}x{1e-6,1e-3,0.1,1,10,1e3} plus the empty result and results with exactly one non-zero call (float: |E|<=1e3, S>=1e-3); all sequences of length 4 over the reduced alphabet {2,1000}x{-3,0,1,1e3}x{1e-3,1,1e3}+empty; every sequence also against its sorted permutation; 0..2 distributions (one 1-d with 2 bins, one 2-d with 2x2 bins); 3 types"},
         "thorough": {"shards": 3, "deadline_s": 1500,
                      "bounds": "as quick plus length 5 over the reduced alphabet and length 4 over a medium alphabet (41 results)"},
     },
@@ -83,7 +83,7 @@ META["C14"] = {
     "level": "exploration",
     "tiers": {
         "quick": {"shards": 3, "deadline_s": 200,
-                  "bounds": "all sequences of length 1..7 over {+-1, +-h, +-2^12} (h = 2^-p (1+2^-10)); block sequences prefix (length <= 2) + k copies, k = 10..10^6 (10^5 for prefixes of length 2); eight named families with N = 1..10^6; integral with/without distributions and one distribution bin; 3 types"},
+                  "bounds": "all sequences of length 1..7 over {+-1, +-h, +-2^12} (h = 2^-p (1+2^-10)); block sequences prefix (length <= 2) + k copies, k = 10..10^6 (10^5 for prefixes of length 2); nine named families with N = 1..10^6; integral with/without distributions, a single-bin distribution and two multi-bin distributions (3 and 2 bins fed interleaved subsequences); 3 types"},
         "thorough": {"shards": 3, "deadline_s": 1500,
                      "bounds": "as quick with sequences up to length 9, prefixes up to length 3, k and N up to 10^7"},
     },
@@ -132,7 +132,7 @@ META["C02"] = {
     "parts": 3,
     "tiers": {
         "quick": {"shards": 3, "deadline_s": 300,
-                  "bounds": "18 configurations (PLAIN d=1,2; VEGAS uniform and grid [0,1/4,1] d=1,2; MULTI-CHANNEL 2 channels / 3 channels with one disabled and jacobian 2, d=1,2; each with and without a 2-bin distribution) x N in {0,1,2,3,4,5} x every value sequence over {0,1,-3/2,1/4,3,NaN}; random numbers exhaustive over {1/8,3/8,5/8,7/8} when <= 4 numbers are drawn, one pattern per sequence otherwise; 3-iteration runs through plain/vegas/multi_channel with unequal calls; 3 types"},
+                  "bounds": "20 configurations (PLAIN d=1,2; VEGAS uniform and grid [0,1/4,1] d=1,2; MULTI-CHANNEL 2 channels / 3 channels with one disabled and jacobian 2 / 2 channels with a region of vanishing densities (infinite weight), d=1,2; each with and without a 2-bin distribution) x N in {0,1,2,3,4,5} x every value sequence over {0,1,-3/2,1/4,3,NaN}; random numbers exhaustive over {1/8,3/8,5/8,7/8} when <= 4 numbers are drawn, one pattern per sequence otherwise; 3-iteration runs through plain/vegas/multi_channel with unequal calls; 3 types"},
         "thorough": {"shards": 3, "deadline_s": 1800, "bounds": "as quick with N = 7 in addition"},
     },
     "rule": "nested enumeration of value sequences and random-number patterns; the integrand logs (f, w, bin/channel, densities) per call and the reference model recomputes every reported quantity from that log; non-trivial = at least two non-zero values; distinct = distinct (configuration, sequence, random pattern)",
@@ -177,7 +177,7 @@ META["C15"] = {
     "parts": 9,
     "tiers": {
         "quick": {"shards": 6, "parts_used": [0, 1, 2, 3, 4, 5], "deadline_s": 400,
-                  "bounds": "operations run(1), run(2), reload, rollback(k) for every k in 0..n+1; at most 4 iterations (calls 5,3,7,4); BFS to a fixed point on canonical states plus every history of depth <= 4 without state merging; PLAIN, VEGAS default / user grid, MULTI-CHANNEL default / user weights with a disabled channel; engines mt19937, minstd_rand, ranlux48, knuth_b; 3 types; built with _GLIBCXX_ASSERTIONS and the library's own asserts"},
+                  "bounds": "operations run(1), run(2), reload, rollback(k) for every k in 0..n+1; at most 4 iterations (calls 5,3,7,4); BFS to a fixed point on canonical states plus every history of depth <= 4 without state merging; PLAIN, VEGAS default / user grid, MULTI-CHANNEL default / user weights with a disabled channel / the same with one weight below the minimum weight; engines mt19937, minstd_rand, ranlux48, knuth_b; 3 types; built with _GLIBCXX_ASSERTIONS and the library's own asserts"},
         "thorough": {"shards": 9, "deadline_s": 3000, "bounds": "as quick with histories of depth <= 5 and all nine standard engines"},
     },
     "rule": "explicit-state BFS over real checkpoint objects (copied, not replayed) with canonical state = serialised text + 'read back from text while holding results' flag, and a stateless DFS over all operation histories to the depth bound; distinct_nontrivial = distinct histories executed by the DFS; reference model = golden texts of the uninterrupted run",
@@ -193,7 +193,7 @@ META["C03"] = {
     "parts": 9,
     "tiers": {
         "quick": {"shards": 9, "deadline_s": 500,
-                  "bounds": "calls [7,12,5,9]: every composition into segments (all 8 sets of interruption points) x every assignment of {in memory, text round trip, file written by the built-in callback} to the segments; PLAIN, VEGAS default / user grid, MULTI-CHANNEL default / user weights with a disabled channel; distributions {none, 1-d 'a b', 1-d empty name, 2-d ' lead', two (one with trailing blank, one empty 2-d)}; without target and with a target reached at iteration 2; 9 engines x 3 types"},
+                  "bounds": "calls [7,12,5,9]: every composition into segments (all 8 sets of interruption points) x every assignment of {in memory, text round trip, file written by the built-in callback, the same with the callback instantiated for the checkpoint's base type (first two segments)} to the segments; PLAIN, VEGAS default / user grid, MULTI-CHANNEL default / user weights with a disabled channel; distributions {none, 1-d 'a b', 1-d empty name, 2-d ' lead', two (one with trailing blank, one empty 2-d)}; without target and with a target reached at iteration 2; 9 engines x 3 types"},
         "thorough": {"shards": 9, "deadline_s": 3000, "bounds": "as quick with calls [7,12,5,9,6] (16 sets of interruption points)"},
     },
     "rule": "stateless enumeration of segment paths on real checkpoints; after every segment the checkpoint text must equal the text G_k of the uninterrupted run (confluence); states = distinct texts observed per depth (one per depth when the property holds), transitions = executed segments; distinct_nontrivial = distinct complete paths",
@@ -209,7 +209,7 @@ META["C19"] = {
     "parts": 3,
     "tiers": {
         "quick": {"shards": 3, "deadline_s": 300,
-                  "bounds": "iteration counts 1..4 (calls [3],[2,4],[3,1,4],[2,3,2,4]); VEGAS d=2 with default grids of 2..5 bins and a user grid, alpha in {0,0.5,1.5}; MULTI-CHANNEL default / unnormalised user weights / user weights with a zero, beta in {1/4,1}, min in {0,0.05}; execution: uninterrupted, resumed from text at every split point, MPI shim with P in {1,2,3}; 3 types"},
+                  "bounds": "iteration counts 1..4 (calls [3],[2,4],[3,1,4],[2,3,2,4]); VEGAS d=2 with default grids of 2..5 bins and a user grid, alpha in {0,0.5,1.5}; MULTI-CHANNEL default / unnormalised user weights / user weights with a zero, beta in {1/4,1}, min in {0,0.05}; execution: uninterrupted, resumed from text before the first iteration and at every split point, MPI shim with P in {1,2,3}; 3 types"},
         "thorough": {"shards": 3, "deadline_s": 600, "bounds": "same as quick (the enumeration is complete at this bound)"},
     },
     "rule": "every configuration x execution mode is run on the real integrators with a scripted engine and a logging integrand; states = results whose recorded state was checked against the points actually seen, transitions = refinement steps checked against the library's refine function applied to the recorded data; distinct_nontrivial = distinct cases with at least two iterations",
@@ -224,7 +224,7 @@ META["C12"] = {
     "parts": 3,
     "tiers": {
         "quick": {"shards": 3, "deadline_s": 300,
-                  "bounds": "A: every calls list of length 0..4 over {2,5} x user callback answering false at every position or never x start from an empty or a 2-result checkpoint x serial / MPI shim with 1..3 ranks (a third of the lists); B: built-in callback, 4 modes x targets {0,1e-3,0.05,0.3,1} and +-1% around every relative error the run actually reaches x integrands {0, 1, +-1 alternating, NaN, NaN sometimes, linear} x 5 iterations, serial and MPI shim with 2 ranks; PLAIN, VEGAS, MULTI-CHANNEL; 3 types"},
+                  "bounds": "A: every calls list of length 0..4 over {2,5} x user callback answering false at every position or never x start from an empty or a 2-result checkpoint x serial / MPI shim with 1..3 ranks (a third of the lists); B: built-in callback, 4 modes x targets {0,1e-3,0.05,0.3,1} and +-1% around every relative error the run actually reaches x integrands {0, 1, +-1 alternating, NaN, NaN sometimes, linear, narrow support (iterations without any hit)} x 5 iterations, serial and MPI shim with 2 ranks; PLAIN, VEGAS, MULTI-CHANNEL; 3 types"},
         "thorough": {"shards": 3, "deadline_s": 600, "bounds": "same as quick (the enumeration is complete at this bound)"},
     },
     "rule": "every environment answer sequence of the callback (the position at which it says stop) is enumerated; states = runs judged, transitions = callback invocations judged; distinct_nontrivial = distinct cases with at least two requested iterations (A) plus all built-in cases (B)",
@@ -254,7 +254,7 @@ META["C17"] = {
     "parts": 3,
     "tiers": {
         "quick": {"shards": 3, "deadline_s": 400,
-                  "bounds": "every sequence of 3 calls over the per-call alphabet {canonical number 0, 1/4, largest below 1 (multi-channel: coordinate in {0, largest} x channel draw in {0,1/4,largest})} x {integrand returns 0, 2, NaN} x {requests the weight itself, does not}: 18^3 (36^3) sequences; PLAIN, VEGAS uniform and grid [0,1/8,1/2,1], MULTI-CHANNEL with weights (1,1,1),(0,1,1),(1,0,1),(1,1,0),(0,0,1); 3 types; ASan+UBSan+_GLIBCXX_ASSERTIONS"},
+                  "bounds": "every sequence of 3 calls over the per-call alphabet {canonical number 0, 1/4, largest below 1 (multi-channel: coordinate in {0, largest} x channel draw in {0,1/4,largest})} x {integrand returns 0, 2, NaN} x {requests the weight itself, does not}: 18^3 (36^3) sequences; PLAIN, VEGAS uniform and grid [0,1/8,1/2,1], MULTI-CHANNEL with weights (1,1,1),(0,1,1),(1,0,1),(1,1,0),(0,0,1), and with a distribution (weight requested through the projector) for three of them; 3 types; ASan+UBSan+_GLIBCXX_ASSERTIONS"},
         "thorough": {"shards": 3, "deadline_s": 900, "bounds": "same as quick (the enumeration is complete at this bound)"},
     },
     "rule": "exhaustive enumeration of call sequences; the instrumented integrand and map record every invocation with arguments, buffer addresses and contents; the protocol is checked on the resulting event log; distinct = distinct (configuration, sequence); non-trivial = every sequence (each mixes at least the zero / non-zero / weight-request dimensions)",
@@ -284,7 +284,7 @@ META["C04"] = {
     "parts": 6,
     "tiers": {
         "quick": {"shards": 6, "deadline_s": 500,
-                  "bounds": "mpi_plain / mpi_vegas / mpi_multi_channel (user weights with a disabled channel) x calls lists [0],[1],[2],[3],[5],[7,3],[4,4,4],[2,0,5],[1,1,1,1],[33],[64,31] x {dyadic integrand (exact sums), smooth integrand} x {no distribution, one} x {no target, target 0.35}; worlds 1,2,3 with every reduction order of every collective (P! left folds + tree, pruned by distinct reduced bytes); worlds 4,5,8,16,33 with ascending / descending / tree order; engines script, mt19937, ranlux24, minstd_rand; 3 types"},
+                  "bounds": "mpi_plain / mpi_vegas / mpi_multi_channel (user weights with a disabled channel; plus, for a subset, one random number mapped to three coordinates and a single-channel integrand) x calls lists [0],[1],[2],[3],[5],[7,3],[4,4,4],[2,0,5],[1,1,1,1],[33],[64,31] x {dyadic integrand (exact sums), smooth integrand} x {no distribution, one} x {no target, target 0.35}; worlds 1,2,3 with every reduction order of every collective (P! left folds + tree, pruned by distinct reduced bytes); worlds 4,5,8,16,33 with ascending / descending / tree order; engines script, mt19937, ranlux24, minstd_rand; 3 types"},
         "thorough": {"shards": 6, "deadline_s": 3000, "bounds": "as quick with every reduction order also for 4 ranks and every world size 5..33 in the three canonical orders"},
     },
     "rule": "stateless exploration of the MPI environment's choices: for each collective the environment chooses the order in which the ranks' contributions are combined; ranks are deterministic functions of the results received, so orders with identical reduced bytes have identical futures and one representative is continued; states = complete executions checked, transitions = rank-set executions (one per explored prefix); traces_validated_against_impl = complete executions whose per-rank logs were compared with the serial iteration of the tree under test",
@@ -300,7 +300,7 @@ META["C18"] = {
     "level": "fault_enumeration",
     "tiers": {
         "quick": {"shards": 3, "deadline_s": 400,
-                  "bounds": "PLAIN (about 300 byte checkpoints), VEGAS 128 bins x 4 dimensions (about 13 kB per result, several write calls per checkpoint), MULTI-CHANNEL 30 channels; 3 iterations; silent_and_write_chkpt and verbose_and_write_chkpt; file absent or holding an older (empty) checkpoint; every position in the operation log and every byte prefix of every write; real-kill validation at every log position with byte prefixes {0, 1, middle, last}; 3 types"},
+                  "bounds": "PLAIN (about 300 byte checkpoints), VEGAS 128 bins x 4 dimensions (about 13 kB per result, several write calls per checkpoint), MULTI-CHANNEL 30 channels; 3 iterations; silent_and_write_chkpt and verbose_and_write_chkpt; file absent or holding an older (empty) checkpoint, with and without a partial temporary file left behind by an earlier killed run; every position in the operation log and every byte prefix of every write; real-kill validation at every log position with byte prefixes {0, 1, middle, last}; 3 types"},
         "thorough": {"shards": 3, "deadline_s": 1800, "bounds": "as quick with real-kill validation at every 97th byte of every write"},
     },
     "rule": "fault enumeration over crash points: (operation index, bytes of the write in flight); byte prefixes of a write to a file other than the checkpoint file leave the checkpoint file unchanged and are counted once per operation; distinct = distinct crash points whose checkpoint-file content was judged; non-trivial = every crash point",
